@@ -194,6 +194,8 @@ def search(ctx, suspects, budget):
                 todo.append(json.load(open(os.path.join(d, f)))["case"])
     todo += [{"steps": st, "corr": co} for st, co in CL.typed_family()]
     n = 0
+    prev = None
+    core.fresh_impl()
     while len(out) < 3:
         change = None
         if todo:
@@ -207,15 +209,44 @@ def search(ctx, suspects, budget):
                 change = change_for(steps, corr, ctx.rng)
         n += 1
         why = oracle_program(steps, corr, change)
+        if why and not alone_fails(oracle_program, steps, corr, change):
+            # fine on its own from a fresh library state: it failed because of what an earlier program left behind
+            sess = {"session": [prev, {"steps": steps, "corr": corr, "change": change}]} if prev else None
+            if sess and session_why(oracle_program, sess):
+                out.append(Violation(ID, "program", sess, session_why(oracle_program, sess)))
+            else:
+                out.append(Violation(ID, "program", {"steps": steps, "corr": corr, "change": change},
+                                     why + " (only after the programs of this run, not reproduced from a fresh library state)"))
+            core.fresh_impl()
+            prev = None
+            continue
+        prev = {"steps": steps, "corr": corr, "change": change}
         if why:
-            if change is None or oracle_program(steps, corr) is not None:
+            if change is None or alone_fails(oracle_program, steps, corr, None):
                 change = None
-                steps, corr = shrink_program(steps, corr, lambda s, c: oracle_program(s, c) is not None)
+                # (every candidate is judged from a fresh library state: the shrunk program fails on its own)
+                steps, corr = shrink_program(steps, corr, lambda s, c: alone_fails(oracle_program, s, c, None))
+            core.fresh_impl()
             why = oracle_program(steps, corr, change) or why
             out.append(Violation(ID, "program", {"steps": steps, "corr": corr, "change": change}, why))
     ctx.notes.append("oracle: {} programs checked against finite differences".format(n))
     CL.reset_world()
     return out
+
+
+def alone_fails(oracle, steps, corr, change):
+    core.fresh_impl()
+    return oracle(steps, corr, change) is not None
+
+
+def session_why(oracle, sess):
+    """programs run one after the other in ONE fresh library state (state the library keeps between calculations is part
+    of the input); the last one is judged"""
+    core.fresh_impl()
+    why = None
+    for c in sess["session"]:
+        why = oracle(c["steps"], c["corr"], c.get("change"))
+    return "after {} earlier calculation(s) in the same interpreter: {}".format(len(sess["session"]) - 1, why) if why else None
 
 
 def change_for(steps, corr, rng):
@@ -228,6 +259,10 @@ def change_for(steps, corr, rng):
 
 
 def replay(ctx, v):
+    if "session" in v["case"]:
+        why = session_why(oracle_program, v["case"])
+        CL.reset_world()
+        return Violation(ID, v["kind"], v["case"], why) if why else None
     why = oracle_program(v["case"]["steps"], v["case"]["corr"], v["case"].get("change"))
     CL.reset_world()
     return Violation(ID, v["kind"], v["case"], why) if why else None
